@@ -21,7 +21,7 @@ from vf.common import Ctx, Failure, Stats, drive, run_sharded, scratch_dir
 PROP = "C04"
 LEVEL = "exploration"
 RULE = (
-    "strings: every sequence of <=3 atoms (quick and thorough; thorough adds an index-sampled slice of length 4) over "
+    "strings: every sequence of <=3 atoms (quick and thorough; thorough adds every string of exactly 4 atoms at the assignment and list-item sites, 27.7M round trips, and an index-sampled slice of length 4 at the other sites) over "
     "a 61-atom alphabet with one representative per lexer class, placed at 12 (position,key) sites "
     "(assignment with and without YAML frontmatter/META/nested META/list of 1,2,3 items/inline-map value x keys K,PATTERN,REGEX); plus Hypothesis "
     "text<=60, near-bare strings (1-2 edits away from annotation/expression/variable/version shapes), ints, finite floats, bools, None; plus octave_write(changes/mutations) then read of the file. "
@@ -273,6 +273,26 @@ def shard_strings(ctx: Ctx, shard: int, nshards: int, max_len: int) -> Stats:
     return st
 
 
+def shard_len4(ctx: Ctx, shard: int, nshards: int) -> Stats:
+    """Thorough: EVERY string of exactly 4 atoms at two sites (plain assignment value and list item): 2 x 61^4 round trips."""
+    st = Stats()
+    sites = [("assign", "K"), ("list2", "")]
+    for i, tup in enumerate(itertools.product(ATOMS, repeat=4)):
+        if i % nshards != shard:
+            continue
+        s = "".join(tup)
+        nt = is_nontrivial_str(s)
+        for site, key in sites:
+            r = check_one(site, key, s)
+            st.evaluations += 1
+            if nt:
+                st.nontrivial_exact += 1
+            if r:
+                st.fail(r[0], {"kind": "scalar", "site": site, "key": key, "value": s}, r[1])
+    st.labels["len4_exhaustive_shards"] += 1
+    return st
+
+
 def shard_sampled4(ctx: Ctx, shard: int, nshards: int, total: int) -> Stats:
     """Thorough: index-sampled strings of exactly 4 atoms (NOT exhaustive)."""
     import random
@@ -455,6 +475,8 @@ def run(ctx: Ctx) -> Stats:
     total.merge(run_sharded(shard_hyp, ctx, extra=(ctx.pick(1500, 20000),)))
     total.merge(run_sharded(shard_write, ctx, extra=(ctx.pick(150, 2500),)))
     if not ctx.quick:
+        total.merge(run_sharded(shard_len4, ctx, nshards=ctx.workers * 8))
+        total.notes.append("strings of exactly 4 atoms enumerated completely at the sites assign/K and list item (2 x 61^4); at the other ten sites "
+                           "length-4 strings are index-sampled with the seed (3M), not exhaustive")
         total.merge(run_sharded(shard_sampled4, ctx, extra=(3_000_000,)))
-        total.notes.append("length-4 strings are index-sampled with the seed, not exhaustive")
     return total
